@@ -683,12 +683,6 @@ Proof.
   induction l as [|b l IH]; cbn; [reflexivity|exact IH].
 Qed.
 
-(* allowed: the id list the spec side (Run_C05.judge_query) intersects with *)
-Definition allowed_ok (filt : option idset) (allowed : list uuid) (c : list tdoc) : Prop :=
-  match filt with
-  | Some f => forall x, mem_bytes x allowed = mem_bytes x f
-  | None => forall d, In d c -> mem_bytes (td_id d) allowed = true
-  end.
 
 Lemma match_exact st tok c op terms filt allowed :
   Inv st tok -> corpus_rep c tok -> allowed_ok filt allowed c ->
@@ -745,4 +739,454 @@ Lemma score_ref_comps uterms c logs d :
 Proof.
   unfold score_ref, score_comps. induction uterms as [|t l IH]; cbn [map fold_right]; [reflexivity|].
   now rewrite IH.
+Qed.
+
+(* ------------------------------------------------------------------------- *)
+(* the cut at limit is a top-limit selection, for every score function        *)
+
+Lemma score_ge_trans score : Relations_1.Transitive (score_ge score).
+Proof. intros a b c H1 H2. unfold score_ge in *. eapply Qle_trans; eassumption. Qed.
+
+Lemma SS_firstn {A} (R : A -> A -> Prop) l : StronglySorted R l -> forall n, StronglySorted R (firstn n l).
+Proof.
+  induction 1 as [|x l HS IH HF]; intros n; destruct n; cbn; try constructor.
+  - apply IH.
+  - apply Forall_forall. intros y Hy. rewrite Forall_forall in HF. apply HF.
+    rewrite <- (firstn_skipn n l). apply in_or_app. now left.
+Qed.
+Lemma SS_firstn_skipn {A} (R : A -> A -> Prop) l : StronglySorted R l ->
+  forall n x y, In x (firstn n l) -> In y (skipn n l) -> R x y.
+Proof.
+  induction 1 as [|a l HS IH HF]; intros n x y; destruct n; cbn; try tauto.
+  intros [Hx|Hx] Hy.
+  - subst a. rewrite Forall_forall in HF. apply HF. rewrite <- (firstn_skipn n l). apply in_or_app. now right.
+  - now apply (IH n).
+Qed.
+
+Lemma searchM_rows srt op terms filt limit st :
+  (forall l, Permutation (srt l) l) ->
+  snd (searchM srt op terms filt limit st) = firstn (N.to_nat limit) (srt (matchM op terms filt st)).
+Proof.
+  intros Hp. unfold searchM. cbv zeta.
+  destruct (limit <? N.of_nat (length (srt (matchM op terms filt st)))) eqn:E; cbn [snd]; [reflexivity|].
+  symmetry. apply firstn_all2. apply N.ltb_ge in E. lia.
+Qed.
+Lemma mem_fold_set_add x l : forall s,
+  mem_bytes x (fold_left (fun s id => set_add id s) l s) = mem_bytes x s || mem_bytes x l.
+Proof.
+  induction l as [|a l IH]; intros s; cbn [fold_left]; [now rewrite orb_false_r|].
+  rewrite IH, mem_set_add, mem_cons. now destruct (mem_bytes x s), (bytes_eqb x a).
+Qed.
+Lemma fold_set_add_NoDup l : forall s, NoDup s -> NoDup (fold_left (fun s id => set_add id s) l s).
+Proof. induction l as [|a l IH]; intros s H; cbn; [exact H|]. apply IH. now apply set_add_NoDup. Qed.
+
+Lemma searchM_set srt op terms filt limit st :
+  (forall l, Permutation (srt l) l) ->
+  forall x, In x (fst (searchM srt op terms filt limit st)) <-> In x (snd (searchM srt op terms filt limit st)).
+Proof.
+  intros Hp x. unfold searchM. cbv zeta.
+  destruct (limit <? N.of_nat (length (srt (matchM op terms filt st)))) eqn:E; cbn [fst snd].
+  - rewrite <- !mem_In, mem_fold_set_add. reflexivity.
+  - split; intros H; [eapply Permutation_in; [symmetry; apply Hp|exact H]|eapply Permutation_in; [apply Hp|exact H]].
+Qed.
+
+Lemma firstn_NoDup {A} n (l : list A) : NoDup l -> NoDup (firstn n l).
+Proof.
+  intros H. revert n. induction H as [|x l Hn Hnd IH]; intros n; destruct n; cbn; try constructor.
+  - intros Hin. apply Hn. rewrite <- (firstn_skipn n l). apply in_or_app. now left.
+  - apply IH.
+Qed.
+
+Lemma topk (score : uuid -> Q) srt op terms filt limit st :
+  (forall l, Permutation (srt l) l /\ Sorted (score_ge score) (srt l)) ->
+  let m := matchM op terms filt st in
+  let res := snd (searchM srt op terms filt limit st) in
+  length res = Nat.min (N.to_nat limit) (length m) /\
+  StronglySorted (score_ge score) res /\
+  (forall x, In x res -> In x m) /\
+  (NoDup m -> NoDup res) /\
+  (forall x y, In x m -> ~ In x res -> In y res -> (score x <= score y)%Q).
+Proof.
+  intros Hs m res.
+  assert (Hp : forall l, Permutation (srt l) l) by (intros l; apply Hs).
+  assert (Hres : res = firstn (N.to_nat limit) (srt m)) by (apply searchM_rows; exact Hp).
+  assert (HSS : StronglySorted (score_ge score) (srt m)).
+  { apply Sorted_StronglySorted; [apply score_ge_trans|apply Hs]. }
+  rewrite Hres. repeat split.
+  - rewrite firstn_length. now rewrite (Permutation_length (Hp m)).
+  - now apply SS_firstn.
+  - intros x Hx. eapply Permutation_in; [apply Hp|]. rewrite <- (firstn_skipn (N.to_nat limit) (srt m)).
+    apply in_or_app. now left.
+  - intros Hnd. apply firstn_NoDup. eapply Permutation_NoDup; [symmetry; apply Hp|exact Hnd].
+  - intros x y Hx Hnx Hy.
+    assert (Hx' : In x (srt m)) by (eapply Permutation_in; [symmetry; apply Hp|exact Hx]).
+    rewrite <- (firstn_skipn (N.to_nat limit) (srt m)) in Hx'. apply in_app_or in Hx'.
+    destruct Hx' as [Hx'|Hx']; [contradiction|].
+    exact (SS_firstn_skipn _ _ HSS _ _ _ Hy Hx').
+Qed.
+
+(* ------------------------------------------------------------------------- *)
+(* soundness of the checker Model_C05.text_code                               *)
+Local Open Scope Q_scope.
+
+Lemma Qabs'_eq x : Qabs' x == Qabs x.
+Proof.
+  unfold Qabs'. destruct (Qle_bool 0 x) eqn:E.
+  - apply Qle_bool_iff in E. symmetry. now apply Qabs_pos.
+  - assert (H : x <= 0).
+    { apply Qnot_lt_le. intros H. apply Qlt_le_weak in H. apply Qle_bool_iff in H. congruence. }
+    symmetry. now apply Qabs_neg.
+Qed.
+
+
+Lemma Qclose_rel_sound tol a b : Qclose_rel tol a b = true -> close_rel tol a b.
+Proof.
+  unfold Qclose_rel, close_rel. intros H. apply Qle_bool_iff in H.
+  destruct (Qle_bool 1 (Qabs' b)) eqn:E.
+  - apply Qle_bool_iff in E. left. rewrite !Qabs'_eq in H. rewrite Qabs'_eq in E. tauto.
+  - right. rewrite Qabs'_eq in H. split; [|now rewrite Qmult_1_r in H].
+    apply Qnot_lt_le. intros H1. apply Qlt_le_weak in H1. rewrite <- Qabs'_eq in H1.
+    apply Qle_bool_iff in H1. congruence.
+Qed.
+
+Fixpoint cfind (id : uuid) (l : list (uuid * Q)) : option Q :=
+  match l with [] => None | (k, v) :: r => if bytes_eqb id k then Some v else cfind id r end.
+Lemma cfind_In id s l : cfind id l = Some s -> In (id, s) l.
+Proof.
+  induction l as [|[k v] l IH]; cbn; [discriminate|].
+  destruct (bytes_eqb id k) eqn:E.
+  - apply bytes_eqb_eq in E. subst. intros H; inversion H. now left.
+  - intros H. right. now apply IH.
+Qed.
+
+Lemma nodup_ids_NoDup l : nodup_ids l = true -> NoDup l.
+Proof.
+  induction l as [|x l IH]; cbn; [constructor|]. intros H. apply andb_true_iff in H. destruct H as [H1 H2].
+  constructor; [|now apply IH]. apply mem_nIn. now destruct (mem_bytes x l).
+Qed.
+
+Lemma sorted_q_Sorted l : sorted_q l = true -> Sorted Qle l.
+Proof.
+  induction l as [|x l IH]; [constructor|]. cbn [sorted_q]. destruct l as [|y l].
+  - repeat constructor.
+  - intros H. apply andb_true_iff in H. destruct H as [H1 H2]. constructor; [now apply IH|].
+    constructor. now apply Qle_bool_iff.
+Qed.
+Lemma SS_app {A} (R : A -> A -> Prop) l1 l2 :
+  StronglySorted R l1 -> StronglySorted R l2 -> (forall x y, In x l1 -> In y l2 -> R x y) ->
+  StronglySorted R (l1 ++ l2).
+Proof.
+  induction 1 as [|a l HS IH HF]; cbn; intros H2 Hc; [exact H2|].
+  constructor.
+  - apply IH; [exact H2|]. intros x y Hx Hy. apply Hc; [now right|exact Hy].
+  - apply Forall_forall. intros y Hy. apply in_app_or in Hy. destruct Hy as [Hy|Hy].
+    + rewrite Forall_forall in HF. now apply HF.
+    + apply Hc; [now left|exact Hy].
+Qed.
+Lemma SS_rev {A} (R : A -> A -> Prop) l : StronglySorted R l -> StronglySorted (fun a b => R b a) (rev l).
+Proof.
+  induction 1 as [|a l HS IH HF]; cbn; [constructor|].
+  apply SS_app; [exact IH|repeat constructor|].
+  intros x y Hx [Hy|[]]. subst y. rewrite Forall_forall in HF. apply HF. now apply in_rev.
+Qed.
+Lemma Qle_trans' : Relations_1.Transitive Qle.
+Proof. intros a b c. apply Qle_trans. Qed.
+Lemma sorted_q_rev_desc ss : sorted_q (rev ss) = true -> StronglySorted (fun a b => b <= a) ss.
+Proof.
+  intros H. apply sorted_q_Sorted in H. apply Sorted_StronglySorted in H; [|apply Qle_trans'].
+  apply SS_rev in H. now rewrite rev_involutive in H.
+Qed.
+Lemma last_is_min ss : StronglySorted (fun a b => b <= a) ss -> forall x, In x ss -> last ss 0 <= x.
+Proof.
+  induction 1 as [|a l HS IH HF]; [intros x []|].
+  intros x Hx. destruct l as [|b l]; [destruct Hx as [Hx|[]]; subst; apply Qle_refl|].
+  change (last (a :: b :: l) 0) with (last (b :: l) 0). destruct Hx as [Hx|Hx].
+  - subst x. rewrite Forall_forall in HF. apply HF.
+    destruct (@exists_last _ (b :: l)) as [l' [z E]]; [discriminate|]. rewrite E, last_last.
+    apply in_or_app. right. now left.
+  - now apply IH.
+Qed.
+Lemma slack_mono a b : a <= b -> a + (1 # 10000) * (1 + Qabs a) <= b + (1 # 10000) * (1 + Qabs b).
+Proof.
+  intros H. apply (Qabs_case a); intros Ha; apply (Qabs_case b); intros Hb; lra.
+Qed.
+
+
+
+Lemma scores_all_some rows :
+  (forall r, In r rows -> row_score r <> None) ->
+  map row_score rows = map Some (flat_map (fun r => match row_score r with Some s => [s] | None => [] end) rows).
+Proof.
+  induction rows as [|r rows IH]; cbn; [reflexivity|]. intros H.
+  destruct (row_score r) eqn:E; [|exfalso; apply (H r); [now left|exact E]].
+  cbn. f_equal. apply IH. intros r' Hr'. apply H. now right.
+Qed.
+
+Lemma text_code_sound limit w cands rows :
+  text_code limit w cands rows = 0%N -> text_rows_spec limit w cands rows.
+Proof.
+  unfold text_code.
+  change (fix f (id : uuid) (l : list (uuid * Q)) {struct l} : option Q :=
+            match l with [] => None | (k, v) :: r => if bytes_eqb id k then Some v else f id r end) with cfind.
+  cbv zeta.
+  destruct (nodup_ids (map r_id rows)) eqn:C1; cbn [negb]; [|discriminate].
+  destruct (forallb (fun r => match cfind (r_id r) cands with Some _ => true | None => false end) rows) eqn:C2;
+    cbn [negb]; [|discriminate].
+  destruct (forallb (fun r => match r_score r with Some b => f32_finite b | None => false end) rows) eqn:C3;
+    cbn [negb]; [|discriminate].
+  destruct (forallb (fun r => match cfind (r_id r) cands, row_score r with
+                              | Some s, Some x => Qclose_rel (1 # 10000) x s | _, _ => false end) rows) eqn:C4;
+    cbn [negb]; [|discriminate].
+  destruct (N.of_nat (length rows) =? N.min limit (N.of_nat (length cands)))%N eqn:C5; cbn [negb]; [|discriminate].
+  set (ss := flat_map (fun r => match row_score r with Some s => [s] | None => [] end) rows).
+  destruct (sorted_q (rev ss)) eqn:C6; cbn [negb]; [|discriminate].
+  match goal with |- (if negb ?b then _ else _) = _ -> _ => destruct b eqn:C7; cbn [negb]; [|discriminate] end.
+  match goal with |- (if negb ?b then _ else _) = _ -> _ => destruct b eqn:C8; cbn [negb]; [|discriminate] end.
+  match goal with |- (if negb ?b then _ else _) = _ -> _ => destruct b eqn:C9; cbn [negb]; [|discriminate] end.
+  intros _.
+  rewrite forallb_forall in C2, C3, C4, C7, C8, C9.
+  assert (HSS : StronglySorted (fun a b => b <= a) ss) by now apply sorted_q_rev_desc.
+  repeat split.
+  - now apply nodup_ids_NoDup.
+  - intros r Hr. specialize (C3 r Hr). specialize (C4 r Hr). unfold row_score in C4.
+    destruct (cfind (r_id r) cands) as [s|] eqn:F; [|discriminate].
+    destruct (r_score r) as [b|] eqn:S; [|discriminate]. cbn in C4.
+    exists s, b. repeat split; auto. { now apply cfind_In. } now apply Qclose_rel_sound.
+  - apply N.eqb_eq in C5. lia.
+  - exists ss. repeat split.
+    + apply scores_all_some. intros r Hr. specialize (C3 r Hr). unfold row_score.
+      destruct (r_score r); [discriminate|discriminate].
+    + exact HSS.
+    + intros c Hc Hn x Hx. specialize (C7 c Hc). apply orb_true_iff in C7. destruct C7 as [C7|C7].
+      * apply mem_In in C7. contradiction.
+      * apply Qle_bool_iff in C7. rewrite Qabs'_eq in C7.
+        eapply Qle_trans; [exact C7|]. apply slack_mono. now apply last_is_min.
+  - intros r x Hr Hx. specialize (C8 r Hr). rewrite Hx in C8. now apply Qclose_rel_sound.
+  - intros r Hr. specialize (C9 r Hr). now destruct (r_dist r).
+Qed.
+
+(* ------------------------------------------------------------------------- *)
+(* packaged statements for Props_C05.v                                        *)
+Local Open Scope N_scope.
+
+Lemma index_inv_full (h : list batch_c) (c : list tdoc) :
+  corpus_rep c (cur_tokens h) ->
+  let st := run_hist h in
+  (forall t id, In id (post_get t (ti_post st)) <-> exists d, In d c /\ td_id d = id /\ In t (td_tokens d)) /\
+  (forall t, NoDup (post_get t (ti_post st))) /\
+  (forall t, N.of_nat (length (post_get t (ti_post st))) = doc_freq t c) /\
+  (forall t s, In (t, s) (ti_post st) -> s <> []) /\
+  NoDup (map fst (ti_post st)) /\
+  (forall id, al_get id (ti_docs st) =
+              match find_doc id c with
+              | Some d => Some (count_terms (td_tokens d), N.of_nat (length (td_tokens d)))
+              | None => None
+              end) /\
+  NoDup (map fst (ti_docs st)) /\
+  ti_num st = N.of_nat (length c).
+Proof.
+  intros HR st. pose proof (run_hist_inv h) as HI. fold st in HI.
+  split; [intros t id; apply (post_members st _ c HI HR)|].
+  split; [apply (inv_nd _ _ HI)|].
+  split; [intros t; apply (post_card st _ c HI HR)|].
+  split; [apply run_hist_no_empty|].
+  split; [apply (inv_pk _ _ HI)|].
+  split; [intros id; apply (docs_derived st _ c HI HR)|].
+  split; [apply (inv_dk _ _ HI)|apply (num_derived st _ c HI HR)].
+Qed.
+
+Lemma cur_tokens_snoc h b id :
+  cur_tokens (h ++ [b]) id = match al_get id (rev b) with Some toks => toks | None => cur_tokens h id end.
+Proof.
+  unfold cur_tokens. rewrite concat_app. cbn [concat]. rewrite app_nil_r, rev_app_distr, al_get_app.
+  now destruct (al_get id (rev b)).
+Qed.
+Lemma cur_tokens_nil id : cur_tokens [] id = [].
+Proof. reflexivity. Qed.
+
+(* within a batch of distinct ids the processing order does not matter: both orders
+   lead to states satisfying the invariant for the SAME token function *)
+Lemma upd_batch_perm tok b b' : Permutation b b' -> NoDup (map fst b) ->
+  forall x, upd_batch tok b x = upd_batch tok b' x.
+Proof.
+  intros P Hnd x. rewrite !upd_batch_last.
+  assert (Hnd' : NoDup (map fst b')) by (eapply Permutation_NoDup; [apply Permutation_map, P|exact Hnd]).
+  assert (R : forall l : batch_c, NoDup (map fst l) -> NoDup (map fst (rev l))).
+  { intros l H. rewrite map_rev. eapply Permutation_NoDup; [apply Permutation_rev|exact H]. }
+  destruct (al_get x (rev b)) as [v|] eqn:E.
+  - apply al_get_In in E. apply in_rev in E. apply (Permutation_in _ P) in E. apply in_rev in E.
+    now rewrite (In_al_get x v (rev b') (R _ Hnd') E).
+  - destruct (al_get x (rev b')) as [v|] eqn:E'; [|reflexivity].
+    apply al_get_In in E'. apply in_rev in E'. apply (Permutation_in _ (Permutation_sym P)) in E'.
+    apply in_rev in E'. now rewrite (In_al_get x v (rev b) (R _ Hnd) E') in E.
+Qed.
+Lemma batch_order_irrelevant h b b' c :
+  Permutation b b' -> NoDup (map fst b) -> corpus_rep c (cur_tokens (h ++ [b])) ->
+  corpus_rep c (cur_tokens (h ++ [b'])).
+Proof.
+  intros P Hnd [H1 H2]. split; [exact H1|]. intros id toks. rewrite H2.
+  assert (E : cur_tokens (h ++ [b]) id = cur_tokens (h ++ [b']) id).
+  { rewrite !cur_tokens_snoc. pose proof (upd_batch_perm (cur_tokens h) b b' P Hnd id) as U.
+    now rewrite !upd_batch_last in U. }
+  now rewrite E.
+Qed.
+
+(* search on the state of a history = top-limit selection of the spec's matching set *)
+Lemma search_spec (score : uuid -> Q) srt h c op terms filt allowed limit :
+  corpus_rep c (cur_tokens h) -> allowed_ok filt allowed c ->
+  (forall l, Permutation (srt l) l /\ Sorted (score_ge score) (srt l)) ->
+  let matching := map td_id (filter (fun d => text_matches op (dedup_b terms) d && mem_bytes (td_id d) allowed) c) in
+  let out := searchM srt op terms filt limit (run_hist h) in
+  length (snd out) = Nat.min (N.to_nat limit) (length matching) /\
+  StronglySorted (score_ge score) (snd out) /\
+  NoDup (snd out) /\
+  (forall x, In x (snd out) -> In x matching) /\
+  (forall x y, In x matching -> ~ In x (snd out) -> In y (snd out) -> (score x <= score y)%Q) /\
+  (forall x, In x (fst out) <-> In x (snd out)).
+Proof.
+  intros HR HA Hs matching out.
+  destruct (match_exact _ _ c op terms filt allowed (run_hist_inv h) HR HA) as [Hnd HP]. fold matching in HP.
+  destruct (topk score srt op terms filt limit (run_hist h) Hs) as [T1 [T2 [T3 [T4 T5]]]]. fold out in T1, T2, T3, T4, T5.
+  split; [now rewrite T1, (Permutation_length HP)|].
+  split; [exact T2|]. split; [now apply T4|].
+  split; [intros x Hx; apply (Permutation_in _ HP); now apply T3|].
+  split; [intros x y Hx; apply T5; apply (Permutation_in _ (Permutation_sym HP)); exact Hx|].
+  apply searchM_set. intros l. apply Hs.
+Qed.
+
+Lemma zero_terms srt op filt limit st :
+  (forall l, Permutation (srt l) l) ->
+  matchM op [] filt st = [] /\ searchM srt op [] filt limit st = ([], []) /\
+  (forall d, text_matches op [] d = false).
+Proof.
+  intros Hp. split; [apply matchM_zero_terms|]. split; [|reflexivity].
+  unfold searchM. rewrite matchM_zero_terms.
+  assert (E : srt [] = []) by (apply Permutation_nil, Permutation_sym, Hp).
+  rewrite E. cbn. now destruct limit.
+Qed.
+
+(* a sort satisfying the hypothesis of the top-k theorems exists (insertion sort) *)
+Fixpoint ins_desc (score : uuid -> Q) (x : uuid) (l : list uuid) : list uuid :=
+  match l with
+  | [] => [x]
+  | y :: r => if Qle_bool (score y) (score x) then x :: l else y :: ins_desc score x r
+  end.
+Definition isort_desc (score : uuid -> Q) (l : list uuid) : list uuid := fold_right (ins_desc score) [] l.
+Lemma ins_desc_perm score x l : Permutation (ins_desc score x l) (x :: l).
+Proof.
+  induction l as [|y r IH]; cbn; [reflexivity|]. destruct (Qle_bool (score y) (score x)); [reflexivity|].
+  rewrite IH. apply perm_swap.
+Qed.
+Lemma ins_desc_sorted score x l : Sorted (score_ge score) l -> Sorted (score_ge score) (ins_desc score x l).
+Proof.
+  induction l as [|y r IH]; cbn; intros H; [repeat constructor|].
+  destruct (Qle_bool (score y) (score x)) eqn:E.
+  - constructor; [exact H|]. constructor. unfold score_ge. now apply Qle_bool_iff.
+  - inversion H as [|? ? Hs Hh]; subst. constructor; [now apply IH|].
+    assert (Hxy : score_ge score y x).
+    { unfold score_ge. apply Qlt_le_weak, Qnot_le_lt. intros C. apply Qle_bool_iff in C. congruence. }
+    destruct r as [|z r]; cbn; [now constructor|].
+    destruct (Qle_bool (score z) (score x)); constructor; [exact Hxy|]. now inversion Hh.
+Qed.
+Lemma isort_desc_ok score l : Permutation (isort_desc score l) l /\ Sorted (score_ge score) (isort_desc score l).
+Proof.
+  induction l as [|x l [IH1 IH2]]; cbn; [split; constructor|]. split.
+  - rewrite ins_desc_perm. now constructor.
+  - now apply ins_desc_sorted.
+Qed.
+
+(* Model_C05.corpus (the corpus the running check derives from the live store) represents
+   the token function of the live store *)
+Lemma st_get_In id d (live : store) : st_get id live = Some d -> In (id, d) live.
+Proof.
+  induction live as [|[i d0] live IH]; cbn; [discriminate|].
+  destruct (bytes_eqb id i) eqn:E.
+  - apply bytes_eqb_eq in E. subst. intros H; inversion H. now left.
+  - intros H. right. now apply IH.
+Qed.
+Lemma corpus_ids_sub path tk live : forall c, corpus path tk live = Some c ->
+  forall id, In id (map td_id c) -> In id (map fst live).
+Proof.
+  induction live as [|[i d] live IH]; cbn; intros c H id Hin.
+  - inversion H; subst. destruct Hin.
+  - destruct (corpus path tk live) as [rest|]; [|discriminate].
+    assert (Hrest : In id (map td_id rest) -> i = id \/ In id (map fst live)) by (intros H1; right; now apply (IH rest)).
+    destruct (prop_value path d) as [| |v]; try (inversion H; subst; now apply Hrest).
+    destruct v; try (inversion H; subst; now apply Hrest).
+    destruct (tokens_of s tk) as [[|a l]|]; [| |discriminate]; inversion H; subst; [now apply Hrest|].
+    destruct Hin as [Hin|Hin]; [now left|now apply Hrest].
+Qed.
+
+Lemma corpus_rep_ext c tok tok' : (forall x, tok x = tok' x) -> corpus_rep c tok -> corpus_rep c tok'.
+Proof. intros E [H1 H2]. split; [exact H1|]. intros id toks. now rewrite <- E. Qed.
+Lemma corpus_rep_cons rest tok i toks :
+  corpus_rep rest tok -> tok i = [] -> toks <> [] ->
+  corpus_rep (mkTdoc i toks :: rest) (fun x => if bytes_eqb x i then toks else tok x).
+Proof.
+  intros HR Hi Hne. split.
+  - cbn. constructor; [|apply HR]. rewrite (corpus_rep_In_id _ _ i HR). tauto.
+  - intros id t. cbn [In]. destruct (bytes_eqb id i) eqn:E.
+    + apply bytes_eqb_eq in E. subst id. split.
+      * intros [H|H]; [inversion H; subst; tauto|]. apply HR in H. destruct H as [H1 H2]. congruence.
+      * intros [H1 H2]. left. now subst.
+    + apply beq_neq in E. split.
+      * intros [H|H]; [inversion H; congruence|now apply HR].
+      * intros H. right. now apply HR.
+Qed.
+Definition text_toks (path : bytes) (tk : list (bytes * list bytes)) (d : doc) : option (list bytes) :=
+  match prop_value path d with QFound (VStr s) => tokens_of s tk | _ => Some [] end.
+Lemma corpus_cons path tk i d live :
+  corpus path tk ((i, d) :: live) =
+  match corpus path tk live with
+  | None => None
+  | Some rest => match text_toks path tk d with
+                 | None => None
+                 | Some [] => Some rest
+                 | Some toks => Some (mkTdoc i toks :: rest)
+                 end
+  end.
+Proof.
+  cbn [corpus]. unfold text_toks. destruct (corpus path tk live) as [rest|]; [|reflexivity].
+  destruct (prop_value path d) as [| |v]; try reflexivity. destruct v; try reflexivity.
+Qed.
+Lemma live_tokens_cons path tk i d live id :
+  live_tokens path tk ((i, d) :: live) id =
+  if bytes_eqb id i then match text_toks path tk d with Some t => t | None => [] end
+  else live_tokens path tk live id.
+Proof.
+  unfold live_tokens, text_toks. cbn [st_get]. destruct (bytes_eqb id i); [|reflexivity].
+  destruct (prop_value path d) as [| |v]; try reflexivity. destruct v; reflexivity.
+Qed.
+Lemma live_tokens_absent path tk live id : ~ In id (map fst live) -> live_tokens path tk live id = [].
+Proof.
+  intros H. unfold live_tokens. destruct (st_get id live) as [d|] eqn:E; [|reflexivity].
+  exfalso. apply H. apply st_get_In in E. change id with (fst (id, d)). now apply in_map.
+Qed.
+Lemma corpus_live_rep path tk live : forall c,
+  NoDup (map fst live) -> corpus path tk live = Some c -> corpus_rep c (live_tokens path tk live).
+Proof.
+  induction live as [|[i d] live IH]; intros c Hnd H.
+  - cbn in H. inversion H; subst. split; [constructor|]. intros id toks. cbn. split; [tauto|].
+    intros [H1 H2]. unfold live_tokens in H2. cbn in H2. congruence.
+  - rewrite corpus_cons in H. cbn [map fst] in Hnd. inversion Hnd as [|? ? Hn Hnd']; subst.
+    destruct (corpus path tk live) as [rest|] eqn:Crest; [|discriminate].
+    specialize (IH rest Hnd' eq_refl).
+    pose proof (live_tokens_absent path tk live i Hn) as Habs.
+    destruct (text_toks path tk d) as [[|a l]|] eqn:T; [| |discriminate]; inversion H; subst.
+    + apply (corpus_rep_ext _ (live_tokens path tk live)); [|exact IH].
+      intros x. rewrite live_tokens_cons, T. destruct (bytes_eqb x i) eqn:E; [|reflexivity].
+      apply bytes_eqb_eq in E. now subst.
+    + apply (corpus_rep_ext _ (fun x => if bytes_eqb x i then a :: l else live_tokens path tk live x)).
+      * intros x. now rewrite live_tokens_cons, T.
+      * apply corpus_rep_cons; [exact IH|exact Habs|discriminate].
+Qed.
+
+Lemma score_from_components h c uterms logs d cs :
+  corpus_rep c (cur_tokens h) -> In d c ->
+  comps_of (run_hist h) uterms (td_id d) = Some cs ->
+  score_comps logs cs = score_ref uterms c logs d.
+Proof.
+  intros HR Hin H.
+  rewrite (components _ _ c uterms d (run_hist_inv h) HR Hin) in H. inversion H; subst.
+  symmetry. exact (score_ref_comps uterms c logs d).
 Qed.
